@@ -3,9 +3,10 @@
 import json, sys
 args = sys.argv[1:]
 round2 = "--round2" in args
+round3 = "--round3" in args
 ids = [a for a in args if not a.startswith("--")]
 props = {json.loads(l)["id"]: json.loads(l) for l in open("/verif/properties.jsonl")}
-name = "-".join(ids) + ("-r2" if round2 else "")
+name = "-".join(ids) + ("-r3" if round3 else "-r2" if round2 else "")
 out = []
 out.append(f"""You are helping evaluate a verification effort for the Rust project rust-libp2p. Your task: for each property below, craft ONE realistic source change ("seeded defect") to rust-libp2p that BREAKS the property while the code still compiles and the project's existing tests still pass, plus a demonstration (a test or small program) that fails with your change and passes without it.
 
@@ -36,7 +37,16 @@ Quantified over: {p['quantifier']['text']}
 Relevant source files: {', '.join(p['anchors']['files'])}
 Mechanisms in the code meant to make it hold: {'; '.join(m['name'] + ' (' + m.get('where','') + ')' for m in p['anchors']['mechanism'])}
 """)
-    if round2:
+    if round3:
+        import os
+        prev = []
+        for sfx in ["", "-r2"]:
+            mp = f"/verif/seeded/{i}{sfx}/meta.json"
+            if os.path.exists(mp):
+                m = json.load(open(mp))
+                prev.append(f"- touched {', '.join(m['files_changed'])}; needed: {m['needs_to_manifest']}")
+        out.append("Other engineers have already seeded this property twice. Your change must be DIFFERENT IN KIND from both: do not touch the same code sites, do not rely on the same triggers, and if the statement has several clauses prefer a clause neither of them broke (or the same clause reached through a different public entry point, configuration or composition). The earlier changes:\n" + "\n".join(prev) + "\n")
+    elif round2:
         import os
         mp = f"/verif/seeded/{i}/meta.json"
         if os.path.exists(mp):
